@@ -1,5 +1,5 @@
 (* C03 — a gated node runs only while a controlling gate selects it. *)
-From HG Require Import Base Engine Exec EngineProofs GateProofs Samples.
+From HG Require Import Base Engine Exec EngineProofs GateProofs Samples GateRun.
 From stdpp Require Import gmap.
 
 (* Every node the scheduler starts that has controlling gates is named by the standing
@@ -58,6 +58,55 @@ Theorem C03_closed_gate_first : forall exec g pv r k st t G gn,
   execs (ready_state g st) !! G <> None.
 Proof. exact closed_gate_runs_first. Qed.
 Print Assumptions C03_closed_gate_first.
+
+(* WHOLE RUNS.  The routed fan  gate(c) -> B | C | END ; B(x) -> b ; C(x) -> c2  (Samples.gated, gate closed by default) with
+   ARBITRARY branch functions and ANY routing function choosing one target or END, under either runner and any budget of at
+   least 2 supersteps (1 for END): the run completes; the gate runs once and FIRST; exactly the selected branch runs, once;
+   the other branch never runs and its output is absent; with END neither runs. *)
+Theorem C03_run_routes : forall (fB fC : Z -> val) (D : Z -> decision) (exec : node -> state -> dict val -> outcome),
+  (forall st c, exec gate_node st [(2%positive, VInt c)] = OOk [] (Some (Some (D c)))) ->
+  (forall st x, exec (fnode 11 [1%positive] [32%positive] 2) st [(1%positive, VInt x)] = OOk [(32%positive, fB x)] None) ->
+  (forall st x, exec (fnode 12 [1%positive] [33%positive] 3) st [(1%positive, VInt x)] = OOk [(33%positive, fC x)] None) ->
+  forall (r : runner) (x c : Z) (fuel : nat),
+  match D c with
+  | DEnd =>
+      exists s, execute exec r (S fuel) gated (pv0 x c) = (RDone s, [[(13%positive, [(2%positive, VInt c)])]]) /\
+                vals s !! 32%positive = None /\ vals s !! 33%positive = None
+  | DOne t =>
+      if Pos.eqb t 11 then
+        exists s, execute exec r (S (S fuel)) gated (pv0 x c) =
+                    (RDone s, [[(13%positive, [(2%positive, VInt c)])]; [(11%positive, [(1%positive, VInt x)])]]) /\
+                  vals s !! 32%positive = Some (fB x) /\ vals s !! 33%positive = None
+      else if Pos.eqb t 12 then
+        exists s, execute exec r (S (S fuel)) gated (pv0 x c) =
+                    (RDone s, [[(13%positive, [(2%positive, VInt c)])]; [(12%positive, [(1%positive, VInt x)])]]) /\
+                  vals s !! 33%positive = Some (fC x) /\ vals s !! 32%positive = None
+      else True
+  | DMany _ => True
+  end.
+Proof. exact gated_run_routes. Qed.
+Print Assumptions C03_run_routes.
+
+(* ... instantiated with the executor and tables of the correspondence harness (route table 0 -> B, 1 -> C, otherwise END) *)
+Theorem C03_model_routes : forall (r : runner) (x c : Z) (fuel : nat),
+  match gated_decision c with
+  | DEnd =>
+      exists s, execute (exec_basic gated_ft gated_gt) r (S fuel) gated (pv0 x c) = (RDone s, [[(13%positive, [(2%positive, VInt c)])]]) /\
+                vals s !! 32%positive = None /\ vals s !! 33%positive = None
+  | DOne t =>
+      if Pos.eqb t 11 then
+        exists s, execute (exec_basic gated_ft gated_gt) r (S (S fuel)) gated (pv0 x c) =
+                    (RDone s, [[(13%positive, [(2%positive, VInt c)])]; [(11%positive, [(1%positive, VInt x)])]]) /\
+                  vals s !! 32%positive = Some (VTup [VStr 11; VInt x]) /\ vals s !! 33%positive = None
+      else if Pos.eqb t 12 then
+        exists s, execute (exec_basic gated_ft gated_gt) r (S (S fuel)) gated (pv0 x c) =
+                    (RDone s, [[(13%positive, [(2%positive, VInt c)])]; [(12%positive, [(1%positive, VInt x)])]]) /\
+                  vals s !! 33%positive = Some (VTup [VStr 12; VInt x]) /\ vals s !! 32%positive = None
+      else True
+  | DMany _ => True
+  end.
+Proof. exact gated_model_routes. Qed.
+Print Assumptions C03_model_routes.
 
 (* Non-vacuity: closed-by-default gate; before it decides nothing starts, afterwards exactly
    the chosen branch is ready. *)
